@@ -14,6 +14,7 @@ package main
 // coq/proofs/EnvelopeProofs.v / MsgAddrProofs.v fail, and is listed as untranslatable.
 
 import (
+	"fmt"
 	"go/ast"
 	"go/token"
 	"strconv"
@@ -149,6 +150,29 @@ func init() {
 			}
 			rows = append(rows, "("+coqBytes(name)+", "+coqBytes(callee)+", "+coqBytes(hdr)+", "+coqBytes(format)+")")
 		}
+		// the *Format setters: is the display name wrapped in quotedPairs(...) before it is interpolated?
+		var fe []string
+		for _, name := range []string{"EnvelopeFromFormat", "FromFormat", "AddToFormat", "AddCcFormat", "AddBccFormat", "ReplyToFormat", "RequestMDNAddToFormat"} {
+			escaped := false
+			if fn, ok := p.funcs["Msg."+name]; ok && fn.Body != nil {
+				ast.Inspect(fn.Body, func(x ast.Node) bool {
+					ce, ok := x.(*ast.CallExpr)
+					if !ok || p.src(ce.Fun) != "fmt.Sprintf" || len(ce.Args) != 3 {
+						return true
+					}
+					if p.src(ce.Args[1]) == "quotedPairs(name)" && p.src(ce.Args[2]) == "addr" {
+						escaped = true
+					}
+					return true
+				})
+			} else {
+				untranslatable = append(untranslatable, "addr_format_"+name)
+			}
+			fe = append(fe, fmt.Sprintf("(%s, %v)", coqBytes(name), escaped))
+		}
+		emit("(* msg.go: the *Format setters: (name, the display name passes through quotedPairs(name) inside fmt.Sprintf(format, _, addr)) *)\n")
+		emit("Definition addr_format_escaped : list (list N * bool) :=\n  [%s].\n", strings.Join(fe, ";\n   "))
+		addrEmitLits(p, "quoted_pairs_literals", "quotedPairs")
 		emit("(* msg.go: for each public address setter of Msg: (name, method it delegates to, header constant passed, Sprintf format) *)\n")
 		emit("Definition addr_setters : list (list N * list N * list N * list N) :=\n  [%s].\n", strings.Join(rows, ";\n   "))
 	})
